@@ -27,7 +27,7 @@ def run(ctx):
     # usable (it ends when a one-second timer fires); under virtual time such a spin never ends because the clock only moves
     # when every goroutine is blocked. Scenarios run in chunks with a real-time limit; one that spins is skipped and counted.
     rows, st, stalled, o = [], [], [], ""
-    chunk = 50
+    chunk = 30
     if "VERIF_SCENARIOS" in env:
         rc, o = ctx.go_test("./dshare/", run="TestScenarios", env=env, tags="verif,synctests", timeout=300)
         rows = core.read_ndjson(out) if os.path.exists(out) else []
@@ -42,7 +42,7 @@ def run(ctx):
                     os.remove(out)
                 e2 = dict(env, VERIF_FROM=lo, VERIF_N=hi, VERIF_SKIP=",".join(map(str, skip)))
                 try:
-                    rc, o = ctx.go_test("./dshare/", run="TestScenarios", env=e2, tags="verif,synctests", timeout=40)
+                    rc, o = ctx.go_test("./dshare/", run="TestScenarios", env=e2, tags="verif,synctests", timeout=25)
                     part = core.read_ndjson(out) if os.path.exists(out) else []
                     s1 = [r for r in ctx.go_results(o) if r.get("kind") == "stat"]
                 except core.Infra:
